@@ -74,6 +74,11 @@ func ProvideMintFn(bankKeeper BankKeeper) minttypes.MintFn {
 		secondsSinceLastMint := env.HeaderService.HeaderInfo(ctx).Time.Unix() - (int64)(lastMint)
 
 		blockProvision := annualProvision.Mul(math.NewInt(secondsSinceLastMint)).Quo(math.NewInt(secondsPerYear))
+		// annualProvision never exceeds the room left under the supply cap, but more than a
+		// year may have passed since the last mint: never mint more than the annual provision.
+		if blockProvision.GT(annualProvision) {
+			blockProvision = annualProvision
+		}
 
 		if blockProvision.IsPositive() {
 			res, err := env.QueryRouterService.Invoke(ctx, &liquidityincentivetypes.QueryParamsRequest{})
